@@ -366,6 +366,24 @@ impl Monitor for C13 {
                         rep.violation("C13 part=eager kind=value-inside-original-prefix-changed".to_string(), jobj! {"prefix"=>&dmin,"n"=>i+2,"before"=>dmin[i],"after"=>d_ext[i]});
                     }
                 }
+                let mut with_bound_ok = true;
+                if which == 2 {
+                    // extrapolate_with_bound appends ONE entry iff the announced event count is the next one:
+                    // max(bound - 1, closure) (just bound - 1 for single-entry prefixes)
+                    let appended = len_ext > dmin.len();
+                    rep.count("extrapolate_with_bound_cases", 1);
+                    if appended {
+                        let want = if dmin.len() >= 2 { (bound_delta - 1).max(closed[dmin.len()]) } else { bound_delta - 1 };
+                        with_bound_ok = len_ext == dmin.len() + 1 && d_ext[dmin.len()] == want;
+                        if !with_bound_ok {
+                            rep.violation(
+                                "C13 part=eager kind=extrapolate_with_bound-entry-differs-from-max(bound,closure)".to_string(),
+                                jobj! {"prefix"=>&dmin,"bound_(delta,njobs)"=>vec![bound_delta, dmin.len() as u64 + 2],"appended"=>&d_ext[dmin.len()..len_ext],"expected"=>want},
+                            );
+                        }
+                    }
+                }
+                let mut extension_is_closure = true;
                 if which != 2 && dmin.len() >= 2 {
                     for i in dmin.len()..len_ext.min(closed.len()) {
                         rep.count("eager_points_compared", 1);
@@ -374,6 +392,7 @@ impl Monitor for C13 {
                                 "C13 part=eager kind=extrapolated-distance-differs-from-superadditive-closure".to_string(),
                                 jobj! {"prefix"=>&dmin,"n"=>i+2,"library"=>d_ext[i],"closure"=>closed[i]},
                             );
+                            extension_is_closure = false;
                             break;
                         }
                     }
@@ -382,7 +401,15 @@ impl Monitor for C13 {
                     rep.count("eager_points_compared", 1);
                     if fe[x] > fo[x] {
                         let new_last = d_ext[len_ext - 1];
-                        let wher = if (x as u64) <= new_last { "inside-extended-prefix" } else { "beyond-extended-prefix" };
+                        // the "beyond" class is the known effect of whole-prefix repetition on a CORRECTLY
+                        // extended prefix; if the extension itself is not the closure this is something else
+                        let wher = if (x as u64) <= new_last {
+                            "inside-extended-prefix"
+                        } else if extension_is_closure && with_bound_ok {
+                            "beyond-extended-prefix"
+                        } else {
+                            "beyond-an-extension-that-is-not-the-closure"
+                        };
                         let call = match which { 0 => format!("extrapolate({})", horizon), 1 => format!("extrapolate_steps({})", nsteps), _ => format!("extrapolate_with_bound(({},..))", bound_delta) };
                         rep.violation(
                             format!("C13 part=eager kind=extrapolation-raises-number_arrivals-{}", wher),
